@@ -66,6 +66,7 @@ Definition smsg_eqb (a b : smsg) : bool :=
   | SMedia m f, SMedia m' f' => N.eqb m m' && N.eqb f f'
   | SRoomMsg t, SRoomMsg t' => N.eqb t t'
   | SDisinvite r, SDisinvite r' => N.eqb r r'
+  | SRoomDeleted, SRoomDeleted => true
   | SRoomlist k, SRoomlist k' => N.eqb k k'
   | SPart a, SPart a' => N.eqb a a'
   | SFlags s f, SFlags s' f' => N.eqb s s' && N.eqb f f'
@@ -146,7 +147,7 @@ Definition sd_of (h : hub) (e : N * session) : sd :=
   let '(sid, s) := e in
   mksd sid s.(s_backend) (kind_num s.(s_kind))
        (match s.(s_kind) with KVirtual _ _ => s.(s_user) | _ => sess_userid h sid s end)
-       s.(s_room) s.(s_rs) s.(s_conn) (in_call h sid s) s.(s_perms) (pubs_mask s.(s_pubs))
+       s.(s_room) (if is_virtual s.(s_kind) then 0 else s.(s_rs)) s.(s_conn) (in_call h sid s) s.(s_perms) (pubs_mask s.(s_pubs))
        (N.of_nat (length s.(s_subs))) (pending_len s.(s_pending))
        (nmem sid (counted_of h s.(s_backend)))
        (match s.(s_kind) with KVirtual p _ => p | _ => 0 end).
